@@ -55,10 +55,15 @@ def _ask(c):
         return ((sh.width, sh.signed), (sh2.width, sh2.signed)), ((c["exp"]["w"], c["exp"]["s"]),) * 2
     if k == "const":
         sh = _shape(c["sh"])
+        md = MemoryData(shape=sh, depth=3, init=[])       # rows set after construction: by index, by slice, all at once
+        md.init[0] = c["v"]
+        md.init[1:3] = [c["v"], c["v"]]
+        md2 = MemoryData(shape=sh, depth=2, init=[])
+        md2.init = [c["v"]]
         got = [Const(c["v"], sh).value, Signal(sh, init=c["v"]).init,
                list(MemoryData(shape=sh, depth=2, init=[c["v"]]).init)[0],
-               Const(c["v"], sh).shape() == sh]
-        return got, [c["exp"], c["exp"], c["exp"], True]
+               Const(c["v"], sh).shape() == sh, list(md.init), list(md2.init)[0]]
+        return got, [c["exp"], c["exp"], c["exp"], True, [c["exp"]] * 3, c["exp"]]
     if k == "bits":
         return bits_for(c["v"], c["sg"]), c["exp"]
     if k == "clog":
